@@ -94,6 +94,16 @@ static void property(Src& s, Case& c) {
     src = out;
   };
   share(T, S, 0);
+  if (s.coin(1, 25)) {
+    // one member (of the target, of the source, or of both under different keys) whose value holds hundreds of small containers
+    // of its own kind: UpdateLazy only slices such values out of the text by counting brackets
+    if (T.k != MV::Obj) T = MV::obj();
+    if (S.k != MV::Obj) S = MV::obj();
+    size_t where = s.index(3);
+    if (where != 1 && !T.find("many-t")) T.o.insert(T.o.begin() + (long)s.index(T.o.size() + 1), std::make_pair(std::string("many-t"), gen_many_containers(s)));
+    if (where != 0 && !S.find("many-s")) S.o.insert(S.o.begin() + (long)s.index(S.o.size() + 1), std::make_pair(std::string("many-s"), gen_many_containers(s)));
+    c.cls("value-with-hundreds-of-containers");
+  }
   Layout lt, ls;
   lt.ws = (int)s.index(3);
   ls.ws = (int)s.index(3);
